@@ -48,6 +48,11 @@ pub const QUERY_POOL: &[&str] = &[
     "(argument_list (_)* @x) @al",
     "(return_statement (_)? @x) @r2",
     "(block (_)+ @x) @b2",
+    // one capture name on a node AND on its first child (two nodes that start at the same byte): the value lists them in
+    // the order tree-sitter reports them
+    "(binary_operator left: (_) @x) @x",
+    "(call function: (_) @x) @x",
+    "(attribute object: (_) @dup) @dup",
 ];
 
 #[derive(Clone, Debug)]
@@ -322,7 +327,7 @@ impl<'a> Gen<'a> {
                     None => "7".to_string(),
                 },
                 5 => match self.syn_expr(need_local) {
-                    Some(s) => format!("({} {})", self.r.pick(&["start-row", "start-column", "end-row", "end-column"]), s),
+                    Some(s) => format!("({} {})", self.r.pick(&["start-row", "start-column", "end-row", "end-column", "named-child-index"]), s),
                     None => "8".to_string(),
                 },
                 _ => match self.synlist_expr(need_local) {
@@ -1226,7 +1231,7 @@ pub fn gen_program(r: &mut Rng, pool: &[Pattern], opts: &Opts) -> Program {
         g.shorthands.push("shref".to_string());
     }
     let universal = opts.universal;
-    let header = text.clone();
+    let mut header = text.clone();
     let mut stanzas: Vec<String> = Vec::new();
     if universal {
         g.feature("universal-definer");
@@ -1259,6 +1264,15 @@ pub fn gen_program(r: &mut Rng, pool: &[Pattern], opts: &Opts) -> Program {
         if g.r.chance(1, 2) {
             stanzas.push(format!("{} @ed3 {{\n  edge @ed3.gn -> @ed3.gn{}\n}}\n", pat, second));
         }
+    }
+    if opts.fragment && !opts.universal && g.r.chance(1, 6) {
+        // an INHERITED variable defined twice on one node by two stanzas, and read from a descendant: a duplicate, in every
+        // order of the stanzas (C08)
+        g.feature("inherited-variable-defined-twice");
+        header.push_str("inherit .dupv\n");
+        stanzas.push("(module) @dv1 {\n  let @dv1.dupv = \"first\"\n}\n".to_string());
+        stanzas.push("(module) @dv2 {\n  let @dv2.dupv = \"second\"\n}\n".to_string());
+        stanzas.push("(pass_statement) @dvr {\n  node dvn\n  attr (dvn) seen = @dvr.dupv\n}\n".to_string());
     }
     if opts.fragment && g.r.chance(1, 5) {
         // an assignment whose new value mentions the variable's previous value AND a scoped variable that another stanza
